@@ -96,3 +96,17 @@ Proof.
         destruct (proj2 Hr (ex_intro _ s (conj E Hx))) as (ids & HI & Hi).
         exists ids. split; auto. now apply (nIn _ _ _ Nss).
 Qed.
+
+(** ** The realm's session lookup satisfies [lookup_ok] *)
+Lemma find_session_id : forall l sid s, find_session l sid = Some s -> s_id s = sid.
+Proof.
+  induction l as [|x l IH]; intros sid s; cbn [find_session]; [discriminate|].
+  destruct (N.eqb_spec (s_id x) sid); [intros H; inversion H; subst; auto|apply IH].
+Qed.
+
+Theorem realm_lookup_ok : forall r, s_id (r_meta r) = meta_id -> lookup_ok (lookup r).
+Proof.
+  intros r Hm sid s. unfold lookup. destruct (N.eqb_spec sid meta_id) as [->|].
+  - intros H; inversion H; subst; auto.
+  - apply find_session_id.
+Qed.
